@@ -332,12 +332,16 @@ func c16Processes(r *kit.Run, tier string) (int, int) {
 	if tier == "thorough" {
 		b = 4
 	}
+	readerOffsets := []uint64{0, 0}
+	if tier == "thorough" {
+		readerOffsets = []uint64{0, 1, 0}
+	}
 	w := func(name string, tags ...string) c16Job { return c16Job{Name: name, PreOpen: true, Sends: tags} }
 	scenarios := []c16ProcScenario{
 		{Name: "processes:2-writers-1-send", Bound: 99, Jobs: []c16Job{w("p-a", "a1"), w("p-b", "b1")}},
 		{Name: "processes:2-writers-2-sends", Bound: b, Jobs: []c16Job{w("p-a", "a1", "a2"), w("p-b", "b1", "b2")}},
 		{Name: "processes:3-writers-1-send", Bound: b, Jobs: []c16Job{w("p-a", "a1"), w("p-b", "b1"), w("p-c", "c1")}},
-		{Name: "processes:2-writers-and-a-reader", Bound: b, Jobs: []c16Job{w("p-a", "a1"), w("p-b", "b1"), {Name: "p-r", PreOpen: true, Reads: []uint64{0, 1, 0}}}},
+		{Name: "processes:2-writers-and-a-reader", Bound: b, Jobs: []c16Job{w("p-a", "a1"), w("p-b", "b1"), {Name: "p-r", PreOpen: true, Reads: readerOffsets}}},
 		{Name: "processes:writer-that-starts-and-ends-next-to-a-running-one", Bound: b, Jobs: []c16Job{w("p-a", "a1", "a2"), {Name: "p-s", Sends: []string{"s1"}, CloseAfter: true}}},
 		{Name: "processes:batched-send-next-to-single-sends", Bound: b, Jobs: []c16Job{{Name: "p-a", PreOpen: true, Sends: []string{"a1", "a2"}, Batch: true}, w("p-b", "b1", "b2")}},
 	}
